@@ -981,6 +981,55 @@ func registerJSON(reg func(names string, f intrinsicFn)) {
 		}
 		return fr.m.jsonUnmarshal(fr, data, args[1].(iface))
 	})
+	// Compact / Indent / HTMLEscape: computed natively on concrete bytes and written to the destination buffer
+	// through its interpreted Write method
+	writeBuf := func(fr *frame, dst value, out []byte) {
+		bp := fr.m.prog.prog.ImportedPackage("bytes")
+		bt := types.NewPointer(bp.Type("Buffer").Type())
+		f := fr.m.methodOf(bt, "Write")
+		fr.m.callSSA(fr, token.NoPos, f, []value{dst, bytesValue(out)}, nil)
+	}
+	reg("encoding/json.Compact", func(fr *frame, args []value) value {
+		src, _ := args[1].([]value)
+		cb, ok := concreteBytes(src)
+		if !ok {
+			unsupported("encoding/json model: Compact of symbolic bytes")
+		}
+		var buf bytes.Buffer
+		if err := json.Compact(&buf, cb); err != nil {
+			var off int64
+			if se, ok := err.(*json.SyntaxError); ok {
+				off = se.Offset
+			}
+			return fr.m.mkSyntaxError(err.Error(), off)
+		}
+		writeBuf(fr, args[0], buf.Bytes())
+		return iface{}
+	})
+	reg("encoding/json.Indent", func(fr *frame, args []value) value {
+		src, _ := args[1].([]value)
+		cb, ok := concreteBytes(src)
+		if !ok {
+			unsupported("encoding/json model: Indent of symbolic bytes")
+		}
+		var buf bytes.Buffer
+		if err := json.Indent(&buf, cb, strOf(args[2]), strOf(args[3])); err != nil {
+			return fr.m.mkSyntaxError(err.Error(), 0)
+		}
+		writeBuf(fr, args[0], buf.Bytes())
+		return iface{}
+	})
+	reg("encoding/json.HTMLEscape", func(fr *frame, args []value) value {
+		src, _ := args[1].([]value)
+		cb, ok := concreteBytes(src)
+		if !ok {
+			unsupported("encoding/json model: HTMLEscape of symbolic bytes")
+		}
+		var buf bytes.Buffer
+		json.HTMLEscape(&buf, cb)
+		writeBuf(fr, args[0], buf.Bytes())
+		return nil
+	})
 	reg("encoding/json.Valid", func(fr *frame, args []value) value {
 		data, _ := args[0].([]value)
 		cb, ok := concreteBytes(data)
